@@ -471,7 +471,13 @@ class EprRun:
             self._last_pc = pre["pc"]
             r = self.step()
             if r == "blocked":
-                return None
+                # the scheduler resumed a waiting subroutine although nothing arrived: it has to find itself still
+                # waiting (one such poll per waiting state is an event of the schedule; a second one in a row is not)
+                if self.just_polled:
+                    return None
+                self.just_polled = True
+                return {"a": "poll", "post": self.project()}
+            self.just_polled = False
             if r == "recovered":
                 ev = {"a": "recover"}
             elif r == "next-subroutine":
@@ -490,8 +496,11 @@ class EprRun:
         post = self.project()
         if act[0] == "retry" and post == pre:
             return None
+        self.just_polled = False
         ev["post"] = post
         return ev
+
+    just_polled = False
 
     def enabled(self):
         acts = []
@@ -526,7 +535,7 @@ def explore_schedules(scn, max_depth=40, max_paths=4000):
         run, evs = replay(prefix)
         if any(e is None for e in evs):
             continue
-        key = _json.dumps([run.project(), run.finished, [s["left"] for s in run.net]], sort_keys=True)
+        key = _json.dumps([run.project(), run.finished, [s["left"] for s in run.net], run.just_polled], sort_keys=True)
         if prefix and key in seen:
             paths.append(evs)
             continue
